@@ -60,6 +60,11 @@ history = {
  'C01n':'frozen','C02n':'frozen','C03n':'frozen','C04n':'frozen','C05n':'after','C06n':'frozen-other','C07n':'frozen','C08n':'frozen',
  'C09n':'after','C10n':'frozen','C11n':'frozen','C12a':'frozen','C12b':'frozen','C12c':'frozen','C12d':'frozen','C13n':'frozen','C14n':'after',
  'C15n':'frozen','C16n':'frozen','C17n':'frozen','C18n':'after','C19n':'frozen-other','C20n':'after',
+ # round o: rules frozen at tag rules-frozen-for-round-o-seeds; first run in refs/round_o_first_run.txt (C05o, C08o, C12o: the own rule answered
+ # undecided at the first run and names the construct now)
+ 'C01o':'frozen','C02o':'frozen','C03o':'frozen-other','C04o':'frozen','C05o':'frozen','C06o':'frozen','C07o':'frozen','C08o':'frozen',
+ 'C09o':'frozen','C10o':'frozen','C11o':'frozen','C12o':'frozen','C13o':'frozen','C14o':'frozen-other','C15o':'frozen','C16o':'frozen-other',
+ 'C17o':'frozen-other','C18o':'after','C19o':'frozen','C20o':'frozen',
 }
 seeds = sys.argv[1:] or sorted(d for d in os.listdir('seeded') if os.path.isdir('seeded/'+d))
 out = subprocess.run(['tools/run_seeds.sh'] + seeds, capture_output=True, text=True).stdout
